@@ -679,7 +679,7 @@ func main() {
 		return
 	}
 	r := gen.New(gen.Seed())
-	n := gen.Scale(72, 1200)
+	n := gen.Scale(54, 1200)
 	for i := 0; i < n; i++ {
 		scenario(w, r, i)
 	}
